@@ -1,6 +1,7 @@
 (* Helpers shared by c02_runner.ml and c14_runner.ml: conversions, s-expression readers for the
    exchange formats of rust/harness/src/gram.rs, the printer of Layer-C programs in the format of
    rust/harness/src/prog.rs, observation strings of model runs.                              *)
+open Runner_common
 open Gen_model
 type string = Stdlib.String.t
 
@@ -122,3 +123,49 @@ let obs_of (names : string array) (r : res) : string =
     Printf.sprintf "Err %d [%s] [%s]" (int_of_nat p) (nm ps) (nm ns)
   | OPanic -> "Panic"
   | OOutOfFuel -> "Fuel"
+
+(* ---- translation validation of one emitted parser (shared by C02 and C14) ---- *)
+let utable : (byte list * (n * n) list) list ref = ref []
+
+let split_on_bar s = String.split_on_char '|' s
+let kv s = match String.index_opt s '=' with Some i -> (String.sub s 0 i, String.sub s (i + 1) (String.length s - i - 1)) | None -> (s, "")
+
+let why_name = function 0 -> "in-H" | 1 -> "C02-shadow-builtin" | 2 -> "C02-ws-nonatomic" | 3 -> "C02-node-tag" | _ -> "C02-dirty-atomic-rep"
+
+let h_counts = Array.make 5 0
+let classify extras og = let k = int_of_nat (why_not_H og extras) in h_counts.(min k 4) <- h_counts.(min k 4) + 1; k
+
+(* ---- translation validation of one emitted parser ---- *)
+let check_tv x orig osexp shown =
+  let extras = x = "1" in
+  let og = ogrammar_of osexp in
+  let u = !utable in
+  let case = Printf.sprintf "x=%s og=%s" x osexp in
+  let names = List.map (fun r -> string_of_bytes r.oname) og in
+  let n = List.length og in
+  let called = idents_of_grammar orig in
+  let defaults = List.filter (fun c -> not (List.mem c names)) called in
+  let uses_eoi = List.mem "EOI" defaults in
+  let env = gen_env og u in
+  let closure k = match env (nat_of_int k) with Some p -> show_prog p | None -> "<no closure>" in
+  let unames = List.map (fun (nmb, _) -> string_of_bytes nmb) u in
+  let parts = List.map kv (split_on_bar shown) in
+  let get k = try List.assoc k parts with Not_found -> "<missing>" in
+  let bad = ref false in
+  let cmp what impl expected = if impl <> expected && not !bad then begin bad := true; report "model" (case ^ " at=" ^ what) impl expected end in
+  cmp "enum" (get "enum") (String.concat "," ((if uses_eoi then ["EOI"] else []) @ names));
+  cmp "all_rules" (get "all") (String.concat "," names);
+  cmp "hidden::skip" (get "skip") (show_prog (gen_skip og));
+  let fns = List.filter_map (fun (k, v) -> if String.length k > 3 && String.sub k 0 3 = "fn:" then Some (String.sub k 3 (String.length k - 3), v) else None) parts in
+  let rec firstn k l = if k = 0 then [] else match l with [] -> [] | x :: r -> x :: firstn (k - 1) r in
+  let rec dropn k l = if k = 0 then l else match l with [] -> [] | _ :: r -> dropn (k - 1) r in
+  let user = firstn n fns and builtin = dropn n fns in
+  cmp "rule functions" (String.concat "," (List.map fst user)) (String.concat "," names);
+  List.iteri (fun k (nm, body) -> cmp ("fn " ^ nm) body (closure k)) user;
+  cmp "built-in functions" (String.concat "," (List.sort compare (List.map fst builtin))) (String.concat "," (List.sort compare defaults));
+  List.iter (fun (nm, body) ->
+    let k = match index_of nm fixed_names with Some i -> n + 3 + i | None -> (match index_of nm unames with Some j -> n + 22 + j | None -> -1) in
+    cmp ("built-in " ^ nm) body (if k < 0 then "<not a built-in of the model>" else closure k)) builtin;
+  cmp "start" (get "start") (String.concat "," (List.map (fun r -> r ^ ">" ^ r) (names @ (if uses_eoi then ["EOI"] else []))));
+  ignore (classify extras og)
+
